@@ -77,6 +77,25 @@ def scenario_digests(job, seed):
         for _ in range(rng.randint(1, 3)):
             c15.wild_edit(wf, rng)
         kind = "wild"
+    elif r < 0.65:
+        # two transitions into the same task that publish the same variable names in different orders, and a
+        # context error inside that task: anything order-sensitive in the inspector's worklist shows here
+        names = list(wf["tasks"])
+        if len(names) >= 2:
+            src, dst = names[0], rng.choice(names[1:])
+            lang = rng.choice(["yaql", "jinja"])
+            pub = ["pa", "pb", "pc", "pd", "pe"][: rng.randint(2, 5)]
+            p1 = [{k: 1} for k in pub]
+            p2 = [{k: 2} for k in rng.sample(pub, len(pub))]
+            ok = "<% succeeded() %>" if lang == "yaql" else "{{ succeeded() }}"
+            fl = "<% failed() %>" if lang == "yaql" else "{{ failed() }}"
+            wf["tasks"][src].setdefault("next", [])
+            wf["tasks"][src]["next"] += [{"when": ok, "publish": p1, "do": [dst]}, {"when": fl, "publish": p2, "do": [dst]}]
+            wf["tasks"][dst]["input"] = {"message": c15.wrap(lang, c15.FORMS[lang][0] % "ghost_var")}
+            if "with" in wf["tasks"][dst]:
+                wf["tasks"][dst].pop("with")
+            wf["tasks"][dst]["action"] = "core.echo"
+            kind = "mutant-twinpublish"
     out = dict(kind=kind, steps=[])
     try:
         spec = native_specs.WorkflowSpec(copy.deepcopy(wf))
